@@ -122,6 +122,8 @@ class HrrAlgebra(AbstractAlgebra):
         return np.fft.irfft(fft_unit, n=len(v))
 
     def superpose(self, a, b):
+        if len(a) != len(b):
+            raise ValueError("Inputs must have same length.")
         return a + b
 
     def bind(self, a, b):
